@@ -80,6 +80,10 @@ fn fallback_world() -> (DicModel, CfgModel) {
     (dic, cfg)
 }
 
+pub fn fallback_world_pub() -> (DicModel, CfgModel) {
+    fallback_world()
+}
+
 /// Texts whose byte length / normalised byte length sit on the documented limits, including
 /// shapes where expanding edits precede shrinking ones (fixed finding F10).
 pub fn length_family(tier: Tier) -> Vec<(String, Vec<Piece>)> {
@@ -210,6 +214,7 @@ impl Property for C03 {
     }
     fn strategy(&self, tier: Tier) -> BoxedStrategy<Case> {
         let mut dp = DicParams::small();
+        dp.big_matrix = true;
         dp.avoid_f12 = false;
         let mut cp = CfgParams::full();
         cp.force_fallback = false;
